@@ -366,6 +366,44 @@ pub fn rand_cfg(rng: &mut Rng, world: &World, n_accts: usize, ixlen: usize) -> V
     }
 }
 
+/// A config that resolves: every index and byte range it mentions exists when it is the `j`-th stored
+/// config behind `nm` instruction accounts (`data_lens` = data lengths of those `nm` accounts).  Used for
+/// the multi-config scenarios, where independently random configs would make almost every list fail at
+/// its first or second entry and the later entries (and the index arithmetic between them) go unobserved.
+pub fn valid_cfg(rng: &mut Rng, world: &World, nm: usize, j: usize, ixlen: usize, data_lens: &[usize]) -> Vec<u8> {
+    let (s, w) = (rng.below(2) as u8, rng.below(2) as u8);
+    let n_prev = nm + j;
+    let with_data: Vec<usize> = (0..nm).filter(|i| data_lens[*i] >= 1).collect();
+    let with_key_data: Vec<usize> = (0..nm).filter(|i| data_lens[*i] >= 32).collect();
+    match rng.below(10) {
+        0..=2 => cfg_bytes(0, &world.key(rng), s, w),
+        3..=7 => {
+            let n = rng.range(0, 3) as usize;
+            let mut seeds = vec![];
+            let mut room = 32usize;
+            for _ in 0..n {
+                let seed = match rng.below(4) {
+                    0 => { let k = rng.below(6) as usize; Seed::Literal { bytes: rng.bytes(k) } }
+                    1 if ixlen >= 1 => { let i = rng.below(ixlen.min(200) as u64) as usize; let l = rng.range(1, ((ixlen - i).min(32)) as u64) as usize; Seed::InstructionData { index: i as u8, length: l as u8 } }
+                    2 if n_prev >= 1 => Seed::AccountKey { index: rng.below(n_prev as u64) as u8 },
+                    3 if !with_data.is_empty() => { let a = *rng.pick(&with_data); let len = data_lens[a].min(200); let d = rng.below(len as u64) as usize; let l = rng.range(1, ((len - d).min(32)) as u64) as usize; Seed::AccountData { account_index: a as u8, data_index: d as u8, length: l as u8 } }
+                    _ => Seed::Literal { bytes: vec![7] },
+                };
+                let sz = match &seed { Seed::Literal { bytes } => 2 + bytes.len(), Seed::InstructionData { .. } => 3, Seed::AccountKey { .. } => 2, _ => 4 };
+                if sz <= room { room -= sz; seeds.push(seed); }
+            }
+            let disc = if n_prev == 0 || rng.chance(3, 4) { 1 } else { 128 + rng.below(n_prev.min(100) as u64) as u8 };
+            cfg_bytes(disc, &Seed::pack_into_address_config(&seeds).expect("valid seeds pack"), s, w)
+        }
+        _ => {
+            let kd = if ixlen >= 32 && (with_key_data.is_empty() || rng.chance(1, 2)) { PubkeyData::InstructionData { index: rng.below((ixlen - 31).min(200) as u64) as u8 } }
+                else if !with_key_data.is_empty() { let a = *rng.pick(&with_key_data); PubkeyData::AccountData { account_index: a as u8, data_index: rng.below((data_lens[a] - 31).min(200) as u64) as u8 } }
+                else { return cfg_bytes(0, &world.key(rng), s, w) };
+            cfg_bytes(2, &PubkeyData::pack_into_address_config(&kd).unwrap(), s, w)
+        }
+    }
+}
+
 fn rand_data(rng: &mut Rng) -> Vec<u8> { let n = match rng.below(8) { 0 => 0, 1 => 32, 2 => 33, 3 => rng.range(250, 300) as usize, 4 => *rng.pick(&[254usize, 255, 256, 257, 287, 288]), _ => rng.below(81) as usize }; rng.bytes(n) }
 
 pub fn generate_c05(tier: &str, rng: &mut Rng) -> Vec<String> {
@@ -422,8 +460,13 @@ fn scenario(rng: &mut Rng) -> Scenario {
     let metas: Vec<(usize, bool, bool)> = (0..nm).map(|_| (rng.below(6) as usize, rng.chance(1, 3), rng.chance(1, 2))).collect();
     let ixdata = rand_data(rng);
     let nc = match rng.below(6) { 0 => 0, 1 => 1, _ => rng.range(2, 5) as usize };
-    let cfgs: Vec<Vec<u8>> = (0..nc).map(|_| {
-        if rng.chance(1, 2) { let k = world.keys[rng.below(6) as usize]; cfg_bytes(0, &k, rng.below(2) as u8, rng.below(2) as u8) } else { rand_cfg(rng, &world, nm + nc, ixdata.len()) }
+    // half of the scenarios: every config resolves (in-range references, incl. to accounts appended by earlier
+    // configs); the other half: fixed keys mixed with boundary-heavy random configs
+    let all_valid = rng.chance(1, 2);
+    let data_lens: Vec<usize> = metas.iter().map(|(k, _, _)| datas[*k].len()).collect();
+    let cfgs: Vec<Vec<u8>> = (0..nc).map(|j| {
+        if all_valid { valid_cfg(rng, &world, nm, j, ixdata.len(), &data_lens) }
+        else if rng.chance(1, 2) { let k = world.keys[rng.below(6) as usize]; cfg_bytes(0, &k, rng.below(2) as u8, rng.below(2) as u8) } else { rand_cfg(rng, &world, nm + nc, ixdata.len()) }
     }).collect();
     let tag = rng.below(8) as usize;
     let stored = stored_for(tag, &cfgs, if rng.chance(1, 3) { rng.below(20) as usize } else { 0 });
@@ -432,6 +475,25 @@ fn scenario(rng: &mut Rng) -> Scenario {
 fn metas_str(sc: &Scenario) -> String { if sc.metas.is_empty() { "-".into() } else { sc.metas.iter().map(|(k, s, w)| format!("{}:{}:{}", hex(&sc.world.keys[*k]), *s as u8, *w as u8)).collect::<Vec<_>>().join(",") } }
 fn infos_str(sc: &Scenario, idx: &[(usize, bool, bool)]) -> String { if idx.is_empty() { "-".into() } else { idx.iter().map(|(k, s, w)| format!("{}:{}:{}:{}", hex(&sc.world.keys[*k]), *s as u8, *w as u8, hex(&sc.datas[*k]))).collect::<Vec<_>>().join(",") } }
 
+/// The keys (with fresh random data) that the stored configs resolve to, computed by the independent
+/// resolver: derived (PDA / key-from-data) addresses are not world keys, and a pool without them can
+/// never let the CPI helper succeed — the agreement clause would then only ever be observed on
+/// fixed-key lists.
+fn derived_accounts(sc: &Scenario, rng: &mut Rng) -> Vec<(Pubkey, Vec<u8>)> {
+    let prog = Pubkey::new_from_array(sc.prog);
+    let mut table: Vec<(Pubkey, Option<Vec<u8>>)> = sc.metas.iter().map(|(k, _, _)| (Pubkey::new_from_array(sc.world.keys[*k]), Some(sc.datas[*k].clone()))).collect();
+    let mut out: Vec<(Pubkey, Vec<u8>)> = vec![];
+    for c in &sc.cfgs {
+        let Some((key, _, _)) = guarded(|| spec_resolve(c, &sc.ixdata, &prog, &table)).flatten() else { break };
+        // data: the world's data for a world key, the data already chosen for a repeated derived key, else fresh
+        let data = if let Some(k) = sc.world.keys.iter().position(|w| *w == key.to_bytes()) { sc.datas[k].clone() }
+            else if let Some((_, d)) = out.iter().find(|(k, _)| *k == key) { d.clone() }
+            else { let d = rand_data(rng); out.push((key, d.clone())); d };
+        table.push((key, Some(data)));
+    }
+    out
+}
+
 pub fn generate_c06_c08(prop: &str, tier: &str, rng: &mut Rng) -> Vec<String> {
     let mut v = vec![];
     let n = if tier == "thorough" { 120_000 } else { 2_500 };
@@ -439,12 +501,22 @@ pub fn generate_c06_c08(prop: &str, tier: &str, rng: &mut Rng) -> Vec<String> {
         let sc = scenario(rng);
         let mut stored = sc.stored.clone();
         if rng.chance(1, 30) && !stored.is_empty() { let i = rng.below(stored.len() as u64) as usize; stored[i] = rng.byte(); }
-        // the pool: all six world accounts (complete), sometimes one removed, in random order
-        let mut pool: Vec<(usize, bool, bool)> = (0..6).map(|k| (k, rng.chance(1, 4), rng.chance(1, 2))).collect();
+        // the pool: all six world accounts plus an account for every derived address the list resolves to
+        // (complete), sometimes one removed or duplicated, in random order
+        let derived = derived_accounts(&sc, rng);
+        let mut pool: Vec<(usize, bool, bool)> = (0..6 + derived.len()).map(|k| (k, rng.chance(1, 4), rng.chance(1, 2))).collect();
         for i in (1..pool.len()).rev() { let j = rng.below(i as u64 + 1) as usize; pool.swap(i, j); }
         if rng.chance(1, 6) { pool.pop(); }
         if rng.chance(1, 5) { let d = pool[0]; pool.push(d); }
         let initial: Vec<(usize, bool, bool)> = sc.metas.clone();
+        // world indices 0..5, derived accounts 6..
+        let infos_str = |_sc: &Scenario, idx: &[(usize, bool, bool)]| -> String {
+            if idx.is_empty() { return "-".into(); }
+            idx.iter().map(|(k, s, w)| {
+                let (key, data): (Vec<u8>, &Vec<u8>) = if *k < 6 { (sc.world.keys[*k].to_vec(), &sc.datas[*k]) } else { (derived[*k - 6].0.to_bytes().to_vec(), &derived[*k - 6].1) };
+                format!("{}:{}:{}:{}", hex(&key), *s as u8, *w as u8, hex(data))
+            }).collect::<Vec<_>>().join(",")
+        };
         match prop {
             "C06" if rng.chance(1, 2) => {
                 let fetch: Vec<String> = (0..6).map(|k| format!("{}:{}", hex(&sc.world.keys[k]), match rng.below(12) { 0 => "~".to_string(), 1 => "!".to_string(), _ => hex(&sc.datas[k]) })).collect();
